@@ -29,6 +29,9 @@ CLAIMED = {
     "C15": ("detsim", "deterministic simulation + ThreadSanitizer: T-flavour builds of the resource, pool and router harnesses; the simulator announces exactly the POSIX happens-before edges of the primitives it models, TSan's vector clocks decide",
             "Any ThreadSanitizer report in tulz code under the generated intended-use programs is a violation. TSan's verdict depends on happens-before, not on physical overlap, so each explored schedule stands for all schedules with the same synchronisation structure; the simulator's job is to reach worker start-up, expiry, shutdown and restart paths.",
             "Trusted: the simulator's happens-before announcements (mutex release->acquire, cond_wait as release+acquire, create, join); TSan's bounded shadow history; libstdc++ locale caches are pre-warmed.", "§5 C15"),
+    "C18": ("detsim", "deterministic simulation of the environment: simulated directory stream (PRNG enumeration order, '.'/'..' anywhere, DT_UNKNOWN), drawn handle budget and cwd moved by nested DirectoryVisitors; generator manifest as oracle + handle conservation + string laws",
+            "Generated directory trees on the real file system are queried through Path from changing working directories; answers are compared with the generator's manifest (not std::filesystem), open FILE*/DIR* handles must be conserved by every call, each DirectoryVisitor must restore the cwd current before its construction under arbitrary nesting, and the join/name/parent laws are checked on generated strings.",
+            "Modest use of the family (stated in DESIGN.md): what the simulator adds is enumeration order, the handle budget and the global cwd; the string laws and most agreement checks are decided by generated inputs. No symlinks/special files; backslashes excluded.", "§5 C18"),
     "C20": ("detsim", "deterministic simulation: seeded schedule search that delays the first step of the new thread past the death of the launching frame; liveness registry of callable copies + AddressSanitizer stack-use-after-return",
             "Every callable kind x start path x lvalue argument list is launched from a frame that dies; the scheduler decides how late the child first runs; the callable instance invoked must be registered alive at entry and exit, invoked exactly once on another thread, isFinished()/join() only after it returned.",
             "Trusted: pthread model; ASan fake stacks for use-after-return; sampling.", "§5 C20"),
@@ -49,7 +52,7 @@ NOT_APPLICABLE = {
     "C19": "LocaleInfo::get is a pure function of one string (DESIGN.md §6).",
 }
 PENDING = {k: "not claimed yet: the check for this property is still being built in this session (see DESIGN.md §5); no verdict is offered"
-           for k in ("C18",)}
+           for k in ()}
 
 def main():
     checks = []
